@@ -733,7 +733,7 @@ class CallMixin:
                z3.ForAll([t], z3.And(cos(t) >= -1, cos(t) <= 1), patterns=[cos(t)], qid="el_rng_c"),
                z3.ForAll([t], z3.Implies(z3.And(t >= 0, t <= pi / 2), sin(t) >= 0), patterns=[sin(t)], qid="el_pos_s"),
                z3.ForAll([t], z3.Implies(z3.And(t >= 0, t <= pi / 2), cos(t) >= 0), patterns=[cos(t)], qid="el_pos_c"),
-               sin(0) == 0, cos(0) == 1]
+               sin(0) == 0, cos(0) == 1, cos(pi) == -1, sin(pi) == 0]
         for ax in axs:
             if not any(ax.eq(p) for p in st.pc):
                 st.pc.append(ax)
@@ -763,11 +763,15 @@ class CallMixin:
     def bi_math_exp(self, args, kwargs, st, spec):
         f = self.elem_fun("exp")
         t = z3.Real("el_t")
-        axs = [z3.ForAll([t], f(t) > 0, patterns=[f(t)], qid="el_exp"), f(0) == 1]
+        u = z3.Real("el_u")
+        e_c = z3.Real("e_c")
+        axs = [z3.ForAll([t], f(t) > 0, patterns=[f(t)], qid="el_exp"), f(0) == 1, f(1) == e_c,
+               z3.And(e_c > z3.RealVal("2.71828"), e_c < z3.RealVal("2.71829")),
+               z3.ForAll([t, u], z3.Implies(t <= u, f(t) <= f(u)), patterns=[z3.MultiPattern(f(t), f(u))], qid="el_exp_mono")]
         for ax in axs:
             if not any(ax.eq(p) for p in st.pc):
                 st.pc.append(ax)
-        self.ctx.models_used.add("exp: uninterpreted with exp > 0, exp 0 = 1 (A5)")
+        self.ctx.models_used.add("exp: uninterpreted with exp > 0, exp 0 = 1, exp 1 = e, monotone; 2.71828 < e < 2.71829 (A5)")
         return SV(REAL, f(self.to_real(args[0])))
     bi_np_exp = bi_math_exp
     bi_exp = bi_math_exp
